@@ -72,7 +72,7 @@ Qed.
 Lemma option_unfold c t ev :
   deser_scalar c (TgOption t) ev =
   if sv_tag ev =? TAG_Null then RNone
-  else if negb (sv_tag ev =? TAG_String) && scalar_is_nullish_for_option (sv_value ev) (sv_style ev) then RNone
+  else if negb (sv_tag ev =? TAG_String) && negb (sv_tag ev =? TAG_Binary) && scalar_is_nullish_for_option (sv_value ev) (sv_style ev) then RNone
   else match deser_scalar c t ev with RErr e => RErr e | r => RSome r end.
 Proof. reflexivity. Qed.
 
